@@ -14,6 +14,8 @@ from nightsim.world import make_world, world_signature
 PROP = "C14"
 PROP_NO = 14
 LEVEL = "exploration"
+MONITORS = ["nonparametric_intervals"]
+SOLVER_SEAM = True  # recorder only: the number of rows of every quantile-regression fit
 RULE = ("one evaluation = one poll on a trajectory that sweeps the number n of modelled reporting units upward through the "
         "estimator's minimum; distinct = distinct (estimator, max level bucket, n - minimum clipped to [-3, 8], duplicates); "
         "non-trivial = |n - minimum| <= 2 (the boundary itself) or a duplicate-id poll")
@@ -100,7 +102,7 @@ def make_spec(st, idx, tier):
             row, info = foreign_unit(st.feed, world, fserial)
             ops.append(dict(t=round(t, 3), k="foreign", u=row["geographic_unit_fips"], row=row, info=info))
         if polls < max_polls and (lo <= n_full <= hi or (n_full > hi and (n_full - hi) % sparse_every == 0)):
-            ops.append(dict(t=round(t + 0.5, 3), k="poll", role="trajectory"))
+            ops.append(dict(t=round(t + 0.5, 3), k="poll", role="trajectory", record_fits=True))
             polls += 1
     # operator churn on the SAME client object: the requested levels (and with them the minimum) change while the
     # trajectory runs -- e.g. a demanding level first, a lenient one later
@@ -169,6 +171,35 @@ class Checker(C.BaseChecker):
             if gate:
                 out.append(self.v("gate_spurious", f"{n} modelled reporting units >= minimum {minimum} but ModelNotEnoughSubunitsException was raised: {rec.exc_msg}",
                                   estimator=p["pi_method"]))
+            elif rec.ok and p["pi_method"] != "bootstrap":
+                # the split itself: at least one training unit, at least one calibration unit, the two disjoint and together
+                # all reporting units, and a reachable quantile -- for every interval computation of the poll
+                mon = rec.extra["mon"]
+                bounds = [b for b in mon.get("interval_bounds", []) if "monitor_error" not in b]
+                fits = rec.extra.get("fits", [])
+                A = len(p["prediction_intervals"])
+                for j, b in enumerate(bounds):
+                    n_cal = len(b["conformalization"])
+                    fi = (j // A) * (1 + 2 * A) + 1 + 2 * (j % A)
+                    n_train = int(fits[fi]["x"].shape[0]) if fi < len(fits) and fits[fi].get("x") is not None else None
+                    ids = b["conformalization"]["geographic_unit_fips"].tolist()
+                    bad = None
+                    if n_cal < 1:
+                        bad = f"no calibration unit ({b['n_reporting']} reporting units, level {b['alpha']})"
+                    elif n_train is not None and n_train < 1:
+                        bad = f"no training unit ({b['n_reporting']} reporting units, level {b['alpha']})"
+                    elif n_train is not None and n_train + n_cal != b["n_reporting"]:
+                        bad = f"{b['n_reporting']} reporting units split into {n_train} training and {n_cal} calibration units at level {b['alpha']}: the two sets are not a partition"
+                    elif len(set(ids)) != len(ids):
+                        bad = "a unit appears twice in the calibration set"
+                    elif p["pi_method"] == "nonparametric" and b["alpha"] * (1 + 1 / n_cal) > 1:
+                        bad = f"{n_cal} calibration units cannot carry the quantile alpha(1+1/n_cal) = {b['alpha'] * (1 + 1 / n_cal):.4f} > 1"
+                    if bad:
+                        out.append(self.v("calibration_split", bad + f" (n - minimum = {n - minimum})", estimator=p["pi_method"], at_minimum=bool(n - minimum < 1)))
+                        break
+                    st.probes["calibration_split_checked"] += 1
+                    if n_train == 1:
+                        st.probes["split_with_a_single_training_unit"] += 1
             elif not rec.ok:
                 out.append(self.v("not_completed", f"{n} modelled reporting units >= minimum {minimum} (levels {p['prediction_intervals']}) but the run failed: {rec.exc_type}: {rec.exc_msg}",
                                   estimator=p["pi_method"], exception=rec.exc_type.split(".")[-1], at_minimum=bool(n - minimum < 1)))
